@@ -283,9 +283,11 @@ func (w *world) UploadGetCDNFile(ctx context.Context, r *tg.UploadGetCDNFileRequ
 }
 
 type sink struct {
-	mu  sync.Mutex
-	buf []byte
-	max int64
+	mu     sync.Mutex
+	buf    []byte
+	max    int64
+	ranges [][2]int64 // every write: [off, end)
+	badAt  int64      // offset of the first write whose bytes are not the file's at that place (-1 none)
 }
 
 func (s *sink) Write(b []byte) (int, error) { return s.WriteAt(b, int64(len(s.bufLocked()))) }
@@ -305,16 +307,26 @@ func (s *sink) WriteAt(b []byte, off int64) (int, error) {
 		s.buf = append(s.buf, make([]byte, end-int64(len(s.buf)))...)
 	}
 	copy(s.buf[off:], b)
+	s.ranges = append(s.ranges, [2]int64{off, end})
+	if s.badAt < 0 && !xfer.Equal(off, b) {
+		s.badAt = off
+	}
 	return len(b), nil
 }
 
 type fobs struct {
-	Err      string
-	Panic    string
-	Written  int64
-	Equal    bool
-	Attacked int
-	Events   []string
+	Err     string
+	Panic   string
+	Written int64
+	Equal   bool
+	// what was observed, independent of the attack: every write carried the file's bytes for its place
+	// and stayed inside the file; Covered = length of the gap-free prefix that was written; Dup = some
+	// byte range was written twice
+	AllGenuine bool
+	Covered    int64
+	Dup        bool
+	Attacked   int
+	Events     []string
 }
 
 func runFile(c fcase) fobs {
@@ -329,7 +341,7 @@ func runFile(c fcase) fobs {
 	if c.Mode == "cdn-verify" || c.Mode == "master-verify" {
 		b = b.WithVerify(true)
 	}
-	out := &sink{max: c.Size + 64*mib}
+	out := &sink{max: c.Size + 64*mib, badAt: -1}
 	var o fobs
 	var err error
 	p, v := hx.Recover(func() {
@@ -348,6 +360,27 @@ func runFile(c fcase) fobs {
 	}
 	o.Written = int64(len(out.buf))
 	o.Equal = o.Written == c.Size && xfer.Equal(0, out.buf)
+	rs := append([][2]int64(nil), out.ranges...)
+	sort.Slice(rs, func(i, j int) bool { return rs[i][0] < rs[j][0] })
+	o.AllGenuine = out.badAt < 0
+	gap := false
+	for _, r := range rs {
+		if r[1] > c.Size {
+			o.AllGenuine = false
+		}
+		switch {
+		case gap:
+		case r[0] > o.Covered:
+			gap = true
+		case r[0] < o.Covered:
+			o.Dup = true
+			if r[1] > o.Covered {
+				o.Covered = r[1]
+			}
+		default:
+			o.Covered = r[1]
+		}
+	}
 	w.mu.Lock()
 	o.Attacked, o.Events = w.attacked, w.events
 	w.mu.Unlock()
@@ -457,10 +490,17 @@ func main() {
 			c.Nontrivial(fmt.Sprintf("%+v", fc))
 		}
 		if o.Err == "" && !o.Equal {
+			// classification by what was OBSERVED, not by the attack that was tried
 			sig := "accepted-download-differs"
+			sh, ix := -1, 0
 			switch {
-			case fc.Mode == "cdn-inline" && (fc.Attack.Kind == "truncate-boundary" || fc.Attack.Kind == "truncate-empty"):
+			case fc.Mode == "cdn-inline" && o.AllGenuine && !o.Dup && o.Covered < fc.Size:
+				// only genuine bytes at their places, but the file is not complete: the gap-free prefix
+				// ends early. The model (C34_complete_partial, C34_empty_accepted) explains this only at
+				// the nominal end of a hash window or at a part boundary (empty answer): checked in Coq.
 				sig = "cdn-truncated-at-window-boundary-accepted"
+				sh, ix = c.Case(fmt.Sprintf("CTrunc %d %d %d %d", fc.Size, window, fc.P, o.Covered),
+					map[string]interface{}{"file": fc, "covered": o.Covered, "written": o.Written})
 			case fc.Mode == "cdn-inline" && fc.Attack.Kind == "extend":
 				sig = "cdn-extended-tail-in-split-window-accepted"
 			case fc.Mode == "cdn-inline" && fc.Attack.Kind == "extend-over":
@@ -470,8 +510,8 @@ func main() {
 			case fc.Mode == "cdn-inline" && fc.Attack.Kind == "truncate-mid":
 				sig = "cdn-truncated-in-split-window-accepted"
 			}
-			c.Violate(sig, fmt.Sprintf("%s download of %d bytes (part %d, threads %d, stream=%v) under attack %+v completed without error but wrote %d bytes, equal=%v; %v",
-				fc.Mode, fc.Size, fc.P, fc.Threads, fc.Stream, fc.Attack, o.Written, o.Equal, o.Events), -1, 0, map[string]interface{}{"file": fc})
+			c.Violate(sig, fmt.Sprintf("%s download of %d bytes (part %d, threads %d, stream=%v) under attack %+v completed without error but wrote %d bytes (gap-free genuine prefix %d, all writes genuine=%v, duplicate writes=%v), equal=%v; %v",
+				fc.Mode, fc.Size, fc.P, fc.Threads, fc.Stream, fc.Attack, o.Written, o.Covered, o.AllGenuine, o.Dup, o.Equal, o.Events), sh, ix, map[string]interface{}{"file": fc})
 		}
 		if o.Err != "" && fc.Attack.Kind == "none" {
 			c.Violate("honest-download-fails", fmt.Sprintf("%+v failed without any attack: %s", fc, o.Err), -1, 0, map[string]interface{}{"file": fc})
